@@ -35,42 +35,54 @@ type violation struct {
 	Case string `json:"case"`
 	Text string `json:"text"`
 	Key  string `json:"key"`
+	part part
+}
+
+// part is one worker binary of a check: the main test of the property, or an additional layer
+// (e.g. the E2 interleaving exploration, built with the shim overlay).
+type part struct {
+	Pkg     string
+	Test    string
+	Overlay bool   // build with the E2 shim overlay (e2rewrite) and tag e2
+	Tiers   string // "" = both tiers, else "quick" or "thorough"
 }
 
 type result struct {
-	Property     string         `json:"property"`
-	Shard        int            `json:"shard"`
-	TotalCases   int            `json:"total_cases"`
-	Ran          int            `json:"ran"`
-	Skipped      int            `json:"skipped"`
-	Evals        int            `json:"evals"`
-	NonTrivial   int            `json:"nontrivial"`
-	Classes      map[string]int `json:"classes"`
-	Counters     map[string]int `json:"counters"`
-	Violations   []violation    `json:"violations"`
-	Nondet       []string       `json:"nondeterministic"`
-	Samples      []any          `json:"samples"`
-	Exhaustive   bool           `json:"exhaustive"`
-	DeadlineHit  bool           `json:"deadline_hit"`
-	Completed    bool           `json:"completed"`
-	WallS        float64        `json:"wall_s"`
-	NextIndex    int            `json:"next_index"`
-	Params       map[string]any `json:"params"`
-	DetGuardOK   bool           `json:"determinism_guard_ok"`
-	StatesFile   string         `json:"states_file"`
-	TransFile    string         `json:"trans_file"`
+	Property    string         `json:"property"`
+	Shard       int            `json:"shard"`
+	TotalCases  int            `json:"total_cases"`
+	Ran         int            `json:"ran"`
+	Skipped     int            `json:"skipped"`
+	Evals       int            `json:"evals"`
+	NonTrivial  int            `json:"nontrivial"`
+	Classes     map[string]int `json:"classes"`
+	Counters    map[string]int `json:"counters"`
+	Violations  []violation    `json:"violations"`
+	Nondet      []string       `json:"nondeterministic"`
+	Samples     []any          `json:"samples"`
+	Exhaustive  bool           `json:"exhaustive"`
+	DeadlineHit bool           `json:"deadline_hit"`
+	Completed   bool           `json:"completed"`
+	WallS       float64        `json:"wall_s"`
+	NextIndex   int            `json:"next_index"`
+	Params      map[string]any `json:"params"`
+	DetGuardOK  bool           `json:"determinism_guard_ok"`
+	StatesFile  string         `json:"states_file"`
+	TransFile   string         `json:"trans_file"`
+	test        string
 }
 
 // checkSpec is the static registry: property -> test function, level, timeouts.
 type checkSpec struct {
-	Test      string
-	Level     string // evidence level
-	Rule      string
-	QuickDL   int // worker-internal deadline seconds (0 = none)
-	ThoroDL   int
-	Pkg       string // package dir under /verif/h (default ./checks)
-	Assume    []string
-	NoShard   bool
+	Test    string
+	Level   string // evidence level
+	Rule    string
+	QuickDL int // worker-internal deadline seconds (0 = none)
+	ThoroDL int
+	Pkg     string // package dir under /verif/h (default ./checks)
+	Assume  []string
+	NoShard bool
+	Also    []part
 }
 
 func goEnv() []string {
@@ -86,7 +98,9 @@ func goBin() string {
 	return "/opt/veriftools/go1.26.8/bin/go"
 }
 
-func buildWorker(pkg string) (string, error) {
+func buildWorker(pkg string) (string, error) { return buildWorkerX(pkg, false) }
+
+func buildWorkerX(pkg string, overlay bool) (string, error) {
 	if err := os.MkdirAll(buildDir, 0o755); err != nil {
 		return "", err
 	}
@@ -97,6 +111,21 @@ func buildWorker(pkg string) (string, error) {
 	name := strings.ReplaceAll(strings.Trim(pkg, "./"), "/", "_")
 	out := filepath.Join(buildDir, name+".test")
 	args := []string{"test", "-c", "-tags", "verif", "-vet=off", "-o", out}
+	repoRoot := "/repo"
+	if alt := os.Getenv("VCHECK_REPO"); alt != "" {
+		repoRoot = alt
+	}
+	if overlay {
+		// E2 layer: rewrite the current tree's sync / sync/atomic imports to the scheduler-aware shims
+		ovDir := filepath.Join(buildDir, "e2ov")
+		rw := exec.Command(goBin(), "run", ".", repoRoot, filepath.Join(hDir, "e2shim"), ovDir)
+		rw.Dir = filepath.Join(verifDir, "cmd", "e2rewrite")
+		rw.Env = goEnv()
+		if b, err := rw.CombinedOutput(); err != nil {
+			return "", fmt.Errorf("e2rewrite failed: %v\n%s", err, b)
+		}
+		args = []string{"test", "-c", "-tags", "verif e2", "-vet=off", "-overlay", filepath.Join(ovDir, "overlay.json"), "-o", out}
+	}
 	if alt := os.Getenv("VCHECK_REPO"); alt != "" && alt != "/repo" {
 		// Evaluate another checkout of pion/dtls (e.g. a scratch worktree holding a seeded change) without
 		// touching /repo: same harness, alternative module file whose replace directive points there.
@@ -366,10 +395,11 @@ func runCheck(prop, tier string) int {
 	if _, err := strconv.ParseUint(seed, 10, 64); err != nil {
 		seed = "0"
 	}
-	bin, err := buildWorker(spec.Pkg)
-	if err != nil {
-		fmt.Fprintln(os.Stderr, "HARNESS-ERROR:", err)
-		return 2
+	parts := []part{{Pkg: spec.Pkg, Test: spec.Test}}
+	for _, a := range spec.Also {
+		if a.Tiers == "" || a.Tiers == tier {
+			parts = append(parts, a)
+		}
 	}
 	nshards := runtime.NumCPU()
 	if nshards > 16 {
@@ -383,71 +413,81 @@ func runCheck(prop, tier string) int {
 		deadline = spec.ThoroDL
 	}
 	known := loadKnown()
-	if old, _ := filepath.Glob(filepath.Join(buildDir, "out", spec.Test+"."+tier+".*")); len(old) > 0 {
-		for _, f := range old {
-			_ = os.Remove(f)
-		}
-	}
-
 	var mu sync.Mutex
 	var results []result
 	var crashes []violation
 	harnessErr := []string{}
-	var wg sync.WaitGroup
-	for sh := 0; sh < nshards; sh++ {
-		wg.Add(1)
-		go func(sh int) {
-			defer wg.Done()
-			from := 0
-			for attempt := 0; attempt < 50; attempt++ {
-				wr := runWorker(bin, spec.Test, tier, sh, nshards, from, deadline, seed, fmt.Sprintf("%s.a%d", tier, attempt))
-				b, rerr := os.ReadFile(wr.out)
-				if rerr == nil {
-					var r result
-					if json.Unmarshal(b, &r) == nil && r.Completed {
+	for _, pt := range parts {
+		pt := pt
+		if old, _ := filepath.Glob(filepath.Join(buildDir, "out", pt.Test+"."+tier+".*")); len(old) > 0 {
+			for _, f := range old {
+				_ = os.Remove(f)
+			}
+		}
+		bin, err := buildWorkerX(pt.Pkg, pt.Overlay)
+		if err != nil {
+			fmt.Fprintln(os.Stderr, "HARNESS-ERROR:", err)
+			return 2
+		}
+		var wg sync.WaitGroup
+		for sh := 0; sh < nshards; sh++ {
+			wg.Add(1)
+			go func(sh int) {
+				defer wg.Done()
+				from := 0
+				for attempt := 0; attempt < 50; attempt++ {
+					wr := runWorker(bin, pt.Test, tier, sh, nshards, from, deadline, seed, fmt.Sprintf("%s.a%d", tier, attempt))
+					b, rerr := os.ReadFile(wr.out)
+					if rerr == nil {
+						var r result
+						if json.Unmarshal(b, &r) == nil && r.Completed {
+							for i := range r.Violations {
+								r.Violations[i].part = pt
+							}
+							mu.Lock()
+							results = append(results, r)
+							mu.Unlock()
+							return
+						}
+					}
+					// The worker died. The journal names the case that killed it.
+					idx, id, ok := lastJournal(wr.out)
+					if !ok {
 						mu.Lock()
-						results = append(results, r)
+						harnessErr = append(harnessErr, fmt.Sprintf("shard %d died before running a case: %v\n%s", sh, wr.exit, wr.stderr))
 						mu.Unlock()
 						return
 					}
-				}
-				// The worker died. The journal names the case that killed it.
-				idx, id, ok := lastJournal(wr.out)
-				if !ok {
+					if wr.stalled {
+						mu.Lock()
+						crashes = append(crashes, violation{part: pt, Case: id, Key: "hang:" + hangKey(wr.stderr), Text: fmt.Sprintf("the case made no progress for %v (a goroutine spinning, or the bubble never becoming quiescent); goroutine dump of the killed worker:\n%s", stallLimit, tailLines(pionFrames(wr.stderr), 40))})
+						mu.Unlock()
+						from = idx + 1
+						continue
+					}
+					// Confirm it is deterministic: replay that single case twice in fresh processes.
+					dies := 0
+					var tail string
+					for i := 0; i < 2; i++ {
+						ok, outp := replayCase(bin, pt.Test, tier, id, seed)
+						if !ok && !strings.Contains(outp, "REPLAY-OK") && !strings.Contains(outp, "REPLAY-VIOLATION") {
+							dies++
+							tail = outp
+						}
+					}
 					mu.Lock()
-					harnessErr = append(harnessErr, fmt.Sprintf("shard %d died before running a case: %v\n%s", sh, wr.exit, wr.stderr))
-					mu.Unlock()
-					return
-				}
-				if wr.stalled {
-					mu.Lock()
-					crashes = append(crashes, violation{Case: id, Key: "hang:" + hangKey(wr.stderr), Text: fmt.Sprintf("the case made no progress for %v (a goroutine spinning, or the bubble never becoming quiescent); goroutine dump of the killed worker:\n%s", stallLimit, tailLines(pionFrames(wr.stderr), 40))})
+					if dies == 2 {
+						crashes = append(crashes, violation{part: pt, Case: id, Key: crashKey(tail), Text: "worker process died (panic / fatal error) while executing this case:\n" + tailLines(tail, 40)})
+					} else {
+						harnessErr = append(harnessErr, fmt.Sprintf("shard %d died on case %q but the case does not die on replay (%d/2):\n%s", sh, id, dies, wr.stderr))
+					}
 					mu.Unlock()
 					from = idx + 1
-					continue
 				}
-				// Confirm it is deterministic: replay that single case twice in fresh processes.
-				dies := 0
-				var tail string
-				for i := 0; i < 2; i++ {
-					ok, outp := replayCase(bin, spec.Test, tier, id, seed)
-					if !ok && !strings.Contains(outp, "REPLAY-OK") && !strings.Contains(outp, "REPLAY-VIOLATION") {
-						dies++
-						tail = outp
-					}
-				}
-				mu.Lock()
-				if dies == 2 {
-					crashes = append(crashes, violation{Case: id, Key: crashKey(tail), Text: "worker process died (panic / fatal error) while executing this case:\n" + tailLines(tail, 40)})
-				} else {
-					harnessErr = append(harnessErr, fmt.Sprintf("shard %d died on case %q but the case does not die on replay (%d/2):\n%s", sh, id, dies, wr.stderr))
-				}
-				mu.Unlock()
-				from = idx + 1
-			}
-		}(sh)
-	}
-	wg.Wait()
+			}(sh)
+		}
+		wg.Wait()
+	} // parts
 
 	if len(harnessErr) > 0 {
 		for _, e := range harnessErr {
@@ -467,8 +507,9 @@ func runCheck(prop, tier string) int {
 	total, ran, skipped, evals, nontrivial := 0, 0, 0, 0, 0
 	exhaustive := true
 	var params map[string]any
+	totalByTest := map[string]int{}
 	for _, r := range results {
-		total = r.TotalCases
+		totalByTest[r.test] = r.TotalCases
 		ran += r.Ran
 		skipped += r.Skipped
 		evals += r.Evals
@@ -494,9 +535,19 @@ func runCheck(prop, tier string) int {
 		if !r.DetGuardOK {
 			nondet = append(nondet, fmt.Sprintf("shard %d determinism guard failed", r.Shard))
 		}
-		params = r.Params
+		if params == nil {
+			params = map[string]any{}
+		}
+		if len(parts) == 1 {
+			params = r.Params
+		} else {
+			params[r.test] = r.Params
+		}
 		readSet(r.StatesFile, states)
 		readSet(r.TransFile, trans)
+	}
+	for _, n := range totalByTest {
+		total += n
 	}
 	viols = append(viols, crashes...)
 	if len(nondet) > 0 {
@@ -559,7 +610,7 @@ func runCheck(prop, tier string) int {
 	for i, v := range fresh {
 		h := sha256.Sum256([]byte(v.Case))
 		path := filepath.Join(verifDir, "replays", fmt.Sprintf("%s-%s.json", prop, hex.EncodeToString(h[:6])))
-		rb, _ := json.MarshalIndent(map[string]any{"property": prop, "test": spec.Test, "pkg": spec.Pkg, "tier": tier, "seed": seed, "case": v.Case, "key": v.Key, "observed": v.Text}, "", " ")
+		rb, _ := json.MarshalIndent(map[string]any{"property": prop, "test": v.part.Test, "pkg": v.part.Pkg, "overlay": v.part.Overlay, "tier": tier, "seed": seed, "case": v.Case, "key": v.Key, "observed": v.Text}, "", " ")
 		_ = os.WriteFile(path, rb, 0o644)
 		if i < 25 {
 			fmt.Printf("VIOLATION property=%s replay=%s\n", prop, path)
@@ -574,20 +625,20 @@ func runCheck(prop, tier string) int {
 	// evidence
 	dist := nontrivial
 	cov := map[string]any{
-		"evaluations":         evals,
-		"distinct_nontrivial": dist,
-		"rule":                spec.Rule,
-		"samples":             samples,
-		"exhaustive":          exhaustive,
-		"cases_enumerated":    total,
-		"cases_run":           ran,
+		"evaluations":                      evals,
+		"distinct_nontrivial":              dist,
+		"rule":                             spec.Rule,
+		"samples":                          samples,
+		"exhaustive":                       exhaustive,
+		"cases_enumerated":                 total,
+		"cases_run":                        ran,
 		"cases_skipped_outside_quantifier": skipped,
-		"outcome_classes":     classes,
-		"distinct_outcomes":   len(classes),
-		"counters":            counters,
-		"bounds":              params,
-		"masked_by_known_finding": maskedByKey,
-		"shards":              nshards,
+		"outcome_classes":                  classes,
+		"distinct_outcomes":                len(classes),
+		"counters":                         counters,
+		"bounds":                           params,
+		"masked_by_known_finding":          maskedByKey,
+		"shards":                           nshards,
 	}
 	if len(samples) == 0 {
 		cov["samples"] = []any{"(no sample recorded)"}
@@ -725,12 +776,13 @@ func replay(path string) int {
 	}
 	var r struct {
 		Property, Test, Pkg, Tier, Seed, Case string
+		Overlay                               bool
 	}
 	if err := json.Unmarshal(b, &r); err != nil {
 		fmt.Fprintln(os.Stderr, err)
 		return 2
 	}
-	bin, err := buildWorker(r.Pkg)
+	bin, err := buildWorkerX(r.Pkg, r.Overlay)
 	if err != nil {
 		fmt.Fprintln(os.Stderr, "HARNESS-ERROR:", err)
 		return 2
